@@ -518,8 +518,17 @@ pub fn rule_focus(with_neg: bool) -> BoxedStrategy<RuleSpec> {
                 0 | 6 => chain(true),
                 1 | 7 => chain(false),
                 2 => {
-                    // (A and B) or C ...
+                    // (A and B [and cast comparison]) or C ...
                     let mut c = CondSpec::And(Box::new(lit(0)), Box::new(lit(1)));
+                    if bits & 0x80 != 0 {
+                        let (f, g) = if bits & 0x40 != 0 { ("n1", "f1") } else { ("f1", "n1") };
+                        let cmp = if bits & 0x20 != 0 {
+                            CondSpec::Cmp(OperandSpec::Cast("int", f.to_string()), "==", OperandSpec::Cast("int", g.to_string()))
+                        } else {
+                            CondSpec::Cmp(OperandSpec::Cast("int", f.to_string()), ">", OperandSpec::Int(1))
+                        };
+                        c = CondSpec::And(Box::new(c), Box::new(cmp));
+                    }
                     for i in 2..names.len() {
                         c = CondSpec::Or(Box::new(c), Box::new(lit(i)));
                     }
